@@ -705,6 +705,16 @@ def evaluate(subj, spec, value, mark):
                              f"{'bytes' if fname == 'wire' else 'chars'}>, {flags}) raised "
                              f"{type(e).__name__}: {str(e)[:80]}"))
             continue
+        if isinstance(back, (list, dict, set, bytearray, Obj)):
+            # a mutable result belongs to the caller: two fetches of the same item give two objects
+            try:
+                again = subj.obj.deserialize(KEY, form, flags)
+            except Exception:  # noqa
+                again = None
+            if again is back:
+                problems.append(("deserialize-returns-shared-object", top,
+                                 f"{lab}: deserializing the stored form of {vs} twice returns the very same {top} object "
+                                 f"(a caller that modifies one result changes what the next fetch returns)"))
         if type(back) is not type(value):
             problems.append(("roundtrip-type", f"{top}->{tname(back)}",
                              f"{lab}: {vs} came back as {short(back, 50)} (flags={flags}, {fname} form)"))
